@@ -801,6 +801,23 @@ func (a *analysis) checkAcceptance() {
 				overlap = true
 			}
 		}
+		// a selection that ran while a block was being applied may have seen
+		// the pool after and the wallet store before that block (the manager
+		// and the store are updated one after the other): an input confirmed
+		// spent by that very block can then look free. Inherent to the
+		// two-step update, so not held against the wallet.
+		for j := range a.ev {
+			f := &a.ev[j]
+			if f.H != e.H || !f.IsAcquire() {
+				continue
+			}
+			for _, k := range a.changes {
+				c := &a.ev[k]
+				if c.Call < f.Ret && c.Ret > f.Call {
+					overlap = true
+				}
+			}
+		}
 		if overlap {
 			a.st.Undecided++
 			continue
